@@ -79,6 +79,65 @@ def make_param(ex, st, t, name, root=None):
     return v
 
 
+def self_from_constructor(ex, prog, db, st, fi, contract):
+    """build `self` by symbolically executing the REAL constructor on symbolic arguments (sorts and preconditions from the
+    constructor's contract): the object then has exactly the attributes the current __init__ creates, so a change that makes
+    two sites cooperate (state added in __init__, used in the method) is seen by the method's proof."""
+    cls = fi.qualname.rsplit('.', 1)[0]
+    iq = cls + '.__init__'
+    ic = db.get(iq)
+    ifi = prog.funcs.get(iq)
+    if ic is None or ifi is None:
+        raise Unsupported('self_from_init: no contract / constructor for ' + cls)
+    icase = contract.options.get('init_case') or (db.cases_of(ic, 'quick')[0] if ic.options.get('cases') else {})
+    obj = st.alloc(SObj(cls))
+    env = {'self': obj}
+    cparams = dict(ic.params)
+    defaults = ifi.node.args.defaults
+    real = [a.arg for a in ifi.node.args.args]
+    for k, p in enumerate(real):
+        if p == 'self':
+            continue
+        if p in icase:
+            cv = icase[p]
+            env[p] = None if cv == 'none' else (fresh_scalar(INT, 'init_' + p) if cv == 'int' else
+                                               ((fresh_scalar(REAL, p + '_lo'), fresh_scalar(REAL, p + '_hi')) if cv == 'rpair' else
+                                                (make_param(ex, st, TArr('float', 1), 'init_' + p) if cv == 'arr1' else cv)))
+        elif p in cparams:
+            env[p] = make_param(ex, st, eval_type(cparams[p]), 'init_' + p)
+        else:
+            di = k - (len(real) - len(defaults))
+            loc = State({}, st.heap, st.ver, st.pc, st.ghost)
+            env[p] = ex.ev(defaults[di], loc)
+            st.heap, st.ver = loc.heap, loc.ver
+    ist = State(env, st.heap, st.ver, st.pc, st.ghost)
+    for cl in ic.of('requires'):
+        for a in cl.args:
+            ist.assume(ex.truth(ex.evs(a, ist), ist))
+    save_cur, save_mod = ex.cur, ex.modname_override
+    ex.cur = ifi
+    ex.cur_node_stack.append(ifi.node); ex.cur_qual_stack.append(iq)
+    spec_save = ex.spec
+    ex.spec += 1          # obligations of the constructor belong to its own verification, not to the method's
+    try:
+        outs = ex.exec_block(ifi.node.body, ist)
+    finally:
+        ex.spec = spec_save
+        ex.cur_node_stack.pop(); ex.cur_qual_stack.pop()
+        ex.cur, ex.modname_override = save_cur, save_mod
+    normal = [(s2, k2, v2) for (s2, k2, v2) in outs if k2 in ('next', 'return')]
+    if len(normal) != 1:
+        raise Unsupported('self_from_init: constructor has %d normal paths for the chosen case' % len(normal))
+    s2 = normal[0][0]
+    st.heap, st.ver = s2.heap, s2.ver
+    if st.pc is not s2.pc:
+        st.pc[:] = s2.pc
+    # everything created so far belongs to the caller / the model: the method must not modify it
+    for oid in list(st.heap):
+        ex.frame_roots.setdefault(oid, 'self' if oid == obj.oid else 'model or constructor-argument storage')
+    return obj
+
+
 class FunctionResult:
     def __init__(self, q):
         self.qualname = q
@@ -116,6 +175,9 @@ def verify_function(prog, db, q, contract, case=None):
         real_params = [a.arg for a in fi.node.args.args]
         defaults = fi.node.args.defaults
         for k, p in enumerate(real_params):
+            if p == 'self' and contract.options.get('self_from_init'):
+                env[p] = self_from_constructor(ex, prog, db, st, fi, contract)
+                continue
             if p in case:
                 cv = case[p]
                 if cv == 'none':
@@ -166,7 +228,11 @@ def verify_function(prog, db, q, contract, case=None):
                     ex.frame_roots.pop(env[a.id].oid, None)
         for cl in contract.of('requires'):
             for a in cl.args:
-                st.assume(ex.truth(ex.evs(a, st), st))
+                g = ex.truth(ex.evs(a, st), st)
+                names = {n.id for n in ast.walk(a) if isinstance(n, ast.Name)} - set(db.specs) - set(ex.np.builtins) - set(ex.np.special_forms)
+                if contract.options.get('self_from_init') and names == {'self'}:
+                    ex.oblige(st, 'class-invariant', g, a, text='the constructor establishes ' + ast.unparse(a)[:120])
+                st.assume(g)
         pre = {'env': dict(st.env), 'heap': dict(st.heap), 'ver': dict(st.ver)}
         st.ghost['pre_state'] = pre
         fr.pre_heap = dict(pre['heap'])
